@@ -36,6 +36,10 @@ type RunCtx struct {
 	// Inconclusive reasons (never violations).
 	Inconclusive []string
 	Param        map[string]string
+	// Prom carries the real Prometheus collector of the run to the Post hook.
+	Prom any
+	// PostData carries whatever the scenario wants to evaluate after the run.
+	PostData any
 }
 
 // Failf records a violation.
